@@ -9,7 +9,7 @@
      runs the spec oracle on both.
    Executable definitions only. *)
 From Coq Require Import List ZArith NArith QArith String Ascii Bool.
-From Qryn Require Import lib.Strs lib.CivilDate model.Sql model.SqlRender model.Logql model.LogqlPlan model.SqlEval model.LogqlSem.
+From Qryn Require Import lib.Strs lib.CivilDate model.Sql model.SqlRender model.Logql model.LogqlRegexp model.LogqlPlan model.SqlEval model.LogqlSem.
 Import ListNotations.
 Open Scope string_scope.
 
@@ -59,18 +59,115 @@ Fixpoint strip_jp (st : nat) (s : string) : string :=
                              else if Nat.eqb st 2 && Ascii.eqb c "_" then 3 else 0)%nat r)
   end.
 Definition expr_text (e : expr) : string := strip_jp 0 (fst (rexpr e no_opts rst0)).
-(* the planner-local objects of a query whose text SqlEval interprets as a whole: the json extraction map of
-   every `| json` stage and the lambda of every `| drop` stage *)
+(* the planner-local objects of a query whose text SqlEval interprets as a whole and that prep recognises through the
+   model's own text: the json extraction map of every `| json` stage. (The lambda of a `| drop` stage and the map of a
+   `| regexp` stage are PARSED from the implementation's text - parse_drop_lambda, parse_regex_map - whatever labels,
+   values, names and expression it carries.) *)
 Definition frag_cands (q : strsel) : list (string * expr) :=
   flat_map (fun s => match s with
                      | PParser PJson ps =>
                        match all_paths ps with
                        | Some paths => let e := sql_json_parser (map pp_label ps) paths in [(expr_text e, e)]
                        | None => [] end
-                     | PDrop ps => let e := Sep "" [Raw "(k,v) -> "; Sep " and " (map drop_clause ps)] in [(expr_text e, e)]
                      | _ => [] end) (sel_pipeline q).
 Fixpoint cand_lookup (t : string) (cs : list (string * expr)) : option expr :=
   match cs with [] => None | (t', e) :: r => if String.eqb t t' then Some e else cand_lookup t r end.
+
+(* ---------- planner-local objects read back from their TEXT (any names / values the implementation printed) ---------- *)
+(* a quoted string literal (StringVal.String) in front of s, after its opening quote: the value and the rest *)
+Definition unesc_char (d : ascii) : ascii :=
+  if Ascii.eqb d "0" then "000" else if Ascii.eqb d "n" then "010" else if Ascii.eqb d "r" then "013"
+  else if Ascii.eqb d "b" then "008" else if Ascii.eqb d "t" then "009" else d.
+Fixpoint quoted_body (s acc : string) : option (string * string) :=
+  match s with
+  | EmptyString => None
+  | String c r =>
+    if Ascii.eqb c "'" then Some (rev_s acc "", r)
+    else if Ascii.eqb c "\" then
+      match r with
+      | String d r2 =>
+        if Ascii.eqb d "x" then match r2 with String _ (String _ r3) => quoted_body r3 (String "026" acc) | _ => None end
+        else quoted_body r2 (String (unesc_char d) acc)
+      | EmptyString => None
+      end
+    else quoted_body r (String c acc)
+  end.
+Definition take_quoted (s : string) : option (string * string) :=
+  match s with String c r => if Ascii.eqb c "'" then quoted_body r "" else None | EmptyString => None end.
+Fixpoint after_prefix (p s : string) : option string :=
+  match p with
+  | EmptyString => Some s
+  | String c p' => match s with String d s' => if Ascii.eqb c d then after_prefix p' s' else None | EmptyString => None end
+  end.
+(* 'a','b',...  up to a closing bracket; fuel = length of the text *)
+Fixpoint quoted_list (fuel : nat) (s : string) : option (list string * string) :=
+  match fuel with
+  | O => None
+  | S f =>
+    match take_quoted s with
+    | Some (v, rest) =>
+      match rest with
+      | String c r => if Ascii.eqb c "," then match quoted_list f r with Some (vs, r2) => Some (v :: vs, r2) | None => None end
+                      else Some ([v], rest)
+      | EmptyString => Some ([v], rest)
+      end
+    | None => Some ([], s)
+    end
+  end.
+Fixpoint skip_digits (s : string) : string :=
+  match s with String c r => if is_digit c then skip_digits r else s | EmptyString => s end.
+(* regexMap.String: mapFromArrays(arrayFilter( (x,y) -> ..., [<names>] as re_lbls_N, arrayMap(..., extractAllGroupsHorizontal(string, <re>)) as re_vals_N), ...) *)
+Definition parse_regex_map (t : string) : option expr :=
+  match after_prefix regex_map_t1 t with
+  | Some r1 =>
+    match quoted_list (S (String.length r1)) r1 with
+    | Some (names, r2) =>
+      match after_prefix "] as re_lbls_" r2 with
+      | Some r3 =>
+        match after_prefix ",  arrayMap(x -> x[length(x)], extractAllGroupsHorizontal(string, " (skip_digits r3) with
+        | Some r4 => match take_quoted r4 with Some (re, _) => Some (regex_map names re) | None => None end
+        | None => None end
+      | None => None end
+    | None => None end
+  | None => None
+  end.
+(* mapDropFilter's lambda: (k,v) -> k!='a' and (k, v)!=('b', 'c') and ... *)
+Fixpoint drop_lambda_clauses (fuel : nat) (s : string) : option (list expr) :=
+  match fuel with
+  | O => None
+  | S f =>
+    let next (cl : expr) (rest : string) :=
+      match rest with
+      | EmptyString => Some [cl]
+      | _ => match after_prefix " and " rest with
+             | Some r => match drop_lambda_clauses f r with Some cs => Some (cl :: cs) | None => None end
+             | None => None end
+      end in
+    match after_prefix "k!=" s with
+    | Some r => match take_quoted r with Some (k, rest) => next (Sep "" [Raw "k!="; StrV k]) rest | None => None end
+    | None =>
+      match after_prefix "(k, v)!=(" s with
+      | Some r =>
+        match take_quoted r with
+        | Some (k, r2) =>
+          match after_prefix ", " r2 with
+          | Some r3 => match take_quoted r3 with
+                       | Some (v, r4) => match after_prefix ")" r4 with
+                                         | Some rest => next (Sep "" [Raw "(k, v)!=("; StrV k; Raw ", "; StrV v; Raw ")"]) rest
+                                         | None => None end
+                       | None => None end
+          | None => None end
+        | None => None end
+      | None => None end
+    end
+  end.
+Definition parse_drop_lambda (t : string) : option expr :=
+  match after_prefix "(k,v) -> " t with
+  | Some r => match drop_lambda_clauses (S (String.length r)) r with
+              | Some cl => Some (Sep "" [Raw "(k,v) -> "; Sep " and " cl])
+              | None => None end
+  | None => None
+  end.
 
 (* name['key'] : a map subscript printed by fmt.Sprintf (labels['level']) *)
 Fixpoint split_at (sep s : string) (fuel : nat) : option (string * string) :=
@@ -138,6 +235,8 @@ Section PREP.
     | Fn name args =>
       if String.eqb name "mapFromArrays" && String.eqb (fst (rexpr e no_opts rst0)) labels_map_raw then Raw labels_map_raw
       else if String.eqb name "cityHash64" && String.eqb (fst (rexpr e no_opts rst0)) fp_labels_raw then Raw fp_labels_raw
+      else if String.eqb name "mapFromArrays" && match parse_regex_map (fst (rexpr e no_opts rst0)) with Some _ => true | None => false end
+      then match parse_regex_map (fst (rexpr e no_opts rst0)) with Some m => m | None => e end
       else if (String.eqb name "mapFromArrays" || String.eqb name "mapFilter") && match cand_lookup (expr_text e) cands with Some _ => true | None => false end
       then match cand_lookup (expr_text e) cands with Some m => m | None => e end
       else
@@ -159,9 +258,13 @@ Section PREP.
       | _ => Sep sep (map (prep_e env) parts)
       end
     | Raw t => if is_float_lit t then FloatV t
-               else match cand_lookup (expr_text e) cands with
+               else match parse_drop_lambda t with
                     | Some m => m
-                    | None => match subscript_of t with Some i => i | None => e end
+                    | None =>
+                      match cand_lookup (expr_text e) cands with
+                      | Some m => m
+                      | None => match subscript_of t with Some i => i | None => e end
+                      end
                     end
     | BitSetAnd cl => BitSetAnd (map (prep_e env) cl)
     | _ => e
@@ -226,6 +329,14 @@ Definition str_hash (s : string) : Z :=
 Definition hash_concrete (ls : labels) : Z :=
   fold_left (fun acc kv => ((acc * 1000003 + str_hash (fst kv) * 31 + str_hash (snd kv)) mod 2305843009213693951)%Z) ls 17%Z.
 
+(* regexp stage: (expression sent, line) -> the groups of the last match, computed with Go's regexp; an expression that does
+   not compile or has no capture group has no rows (= ClickHouse exception) *)
+Definition rg_table := list (string * string * list string).
+Fixpoint rg_lookup (t : rg_table) (p l : string) : option (list string) :=
+  match t with
+  | [] => None
+  | (p', l', vs) :: r => if String.eqb p p' && String.eqb l l' then Some vs else rg_lookup r p l
+  end.
 Definition re_table := list (string * string * bool).          (* subject, pattern, regexp.MatchString *)
 Fixpoint re_lookup (t : re_table) (s p : string) : bool :=
   match t with
@@ -271,6 +382,7 @@ Definition topk_b (asc : bool) (k : Z) (all res : list outrow) : bool :=
   end.
 
 Section CHECK.
+  Context {RG : ReGroups}.
   Variable re_match : string -> string -> bool.
   Variable parse_float : string -> option Q.
 
@@ -333,6 +445,10 @@ Section CHECK.
       | _ => true
       end
     | PLabelFilter f => lf_oracle_b f
+    | PParser PRegexp ps =>
+      forallb (fun x => match re_groups (re_sent ps) (x_line x) with
+                        | Some vs => Nat.eqb (List.length vs) (List.length (re_names ps))
+                        | None => false end) (d_samples d)
     | _ => true
     end.
   Definition oracle_ok_b (q : strsel) (d : database) : bool := forallb (stage_oracle_b d) (sel_pipeline q).
@@ -348,6 +464,7 @@ Record scase := {
   sc_re : re_table;
   sc_pf : pf_table;
   sc_jg : jg_table;
+  sc_rg : rg_table;
   sc_dbs : list database
 }.
 
@@ -359,15 +476,15 @@ Definition days_near (c : pctx) : list Z :=
 
 (* result of evaluating a SELECT on one database and judging it: 0 = reference answer, 1 = not the
    reference answer, 2 = does not evaluate inside the modelled subset *)
-Definition judge (re : string -> string -> bool) (pf : string -> option Q) (jg : string -> list string -> string)
+Definition judge (rg : ReGroups) (re : string -> string -> bool) (pf : string -> option Q) (jg : string -> list string -> string)
     (hl : labels -> Z) (tie : forall A : Type, list A -> list A)
     (q : strsel) (c : pctx) (d : database) (sel : select) : Z * option (list (option outrow)) :=
-  match eval re pf jg hl tie (to_sqldb c d) sel with
+  match eval (RG := rg) re pf jg hl tie (to_sqldb c d) sel with
   | None => (2, None)
   | Some rows =>
     let outs := map row_out rows in
     match map_opt (fun o => o) outs with
-    | Some os => ((if sem2_b re pf jg hl q c d os then 0 else 1)%Z, Some outs)
+    | Some os => ((if sem2_b (RG := rg) re pf jg hl q c d os then 0 else 1)%Z, Some outs)
     | None => (1%Z, Some outs)
     end
   end.
@@ -401,6 +518,7 @@ Definition check_case (s : scase) : cverdict :=
   let re := re_lookup (sc_re s) in
   let pf := pf_lookup (sc_pf s) in
   let jg := jg_lookup (sc_jg s) in
+  let rg : ReGroups := rg_lookup (sc_rg s) in
   let hl := hash_concrete in
   let q := sc_q s in let c := sc_ctx s in
   let impl := prep (days_near c) (frag_cands q) (sc_tree s) in
@@ -411,9 +529,9 @@ Definition check_case (s : scase) : cverdict :=
      cv_model_sel := match msel with Some _ => true | None => false end;
      cv_wrefs := match msel with Some m => wrefs_bound m | None => true end;
      cv_dbs := map (fun d =>
-       let '(vi, got) := judge re pf jg hl tie_id q c d impl in
-       let '(vr, _) := judge re pf jg hl tie_rev q c d impl in
-       let '(vm, mgot) := match msel with Some m => judge re pf jg hl tie_id q c d m | None => (2%Z, None) end in
-       {| v_db_ok := db_ok_b c d; v_absent := absent_guard_b re q d; v_oracle := oracle_ok_b re pf q d;
+       let '(vi, got) := judge rg re pf jg hl tie_id q c d impl in
+       let '(vr, _) := judge rg re pf jg hl tie_rev q c d impl in
+       let '(vm, mgot) := match msel with Some m => judge rg re pf jg hl tie_id q c d m | None => (2%Z, None) end in
+       {| v_db_ok := db_ok_b c d; v_absent := absent_guard_b re q d; v_oracle := oracle_ok_b (RG := rg) re pf q d;
           v_impl := vi; v_impl_rev := vr; v_model := vm; v_same := same_rows got mgot; v_got := got;
-          v_want := log_rows2 re pf jg hl q c d; v_nsamples := Z.of_nat (List.length (d_samples d)) |}) (sc_dbs s) |}.
+          v_want := log_rows2 (RG := rg) re pf jg hl q c d; v_nsamples := Z.of_nat (List.length (d_samples d)) |}) (sc_dbs s) |}.
